@@ -9,7 +9,10 @@ Definition ist := (Z * Q * Z * bool * Q * Q)%type.   (* step, episode_return, ep
 Inductive case :=
 | CNext (alpha : Q) (h : list (Q * bool)) (sts : list ist)
 | CEval (kf : bool) (t : tab) (rw : rawtbl) (stack : list wd) (p : ptab) (det : bool) (k : kpath) (max_steps nep : nat) (mode : nat) (v : Q)
-| CLearn (t : tab) (rw : rawtbl) (stack : list wd) (p : ptab) (gamma alpha : Q) (N T iters : nat) (k : kpath) (recs : list (Z * Q * Q)).
+| CLearn (t : tab) (rw : rawtbl) (stack : list wd) (p : ptab) (gamma alpha : Q) (N T iters : nat) (k : kpath) (recs : list (Z * Q * Q))
+(* any learner (on- or off-policy, stock networks): hist = per environment the (reward, done) pairs an independent user step
+   observer was handed, warm-up (L steps per environment) included; recs = what the backend received *)
+| CLearnHist (alpha : Q) (N T L iters : nat) (hist : list (list (Q * bool))) (recs : list (Z * Q * Q)).
 
 Definition ist_eqb (s : lstate) (i : ist) : bool :=
   let '(st, er, el, d, ar, al) := i in
@@ -72,12 +75,20 @@ Definition eval_ok t rw stack p det k max_steps nep mode v : bool :=
   | _ => Qeq_bool (average_reward E P det k nep max_steps) v
   end.
 
+(* record j (1-based) is the aggregate of the per-environment statistics after L + j*T steps of each environment *)
+Definition hist_records (alpha : Q) (T L iters : nat) (hist : list (list (Q * bool))) : list (Z * Q * Q) :=
+  map (fun j => iter_record (map (fun h => l_run alpha (firstn (L + j * T) h)) hist)) (seq 1 iters).
+Definition hist_ok (alpha : Q) (N T L iters : nat) (hist : list (list (Q * bool))) (recs : list (Z * Q * Q)) : bool :=
+  Nat.eqb (length hist) N && forallb (fun h => Nat.leb (L + iters * T) (length h)) hist
+  && forallb2 rec_eqb (hist_records alpha T L iters hist) recs.
+
 Definition agree (c : case) : bool :=
   match c with
   | CNext alpha h sts => next_agree alpha l_init h sts
   | CEval _ t rw stack p det k max_steps nep mode v => eval_ok t rw stack p det k max_steps nep mode v
   | CLearn t rw stack p gamma alpha N T iters k recs =>
       forallb2 rec_eqb (learn_records (env_of t rw stack) (tab_pol p rw) gamma alpha N T iters k) recs
+  | CLearnHist alpha N T L iters hist recs => hist_ok alpha N T L iters hist recs
   end.
 
 (* property predicates that do not depend on key routing: the EMA law on the implementation's own numbers;
@@ -88,4 +99,5 @@ Definition holds (c : case) : bool :=
   | CEval kf t _ stack p det k max_steps nep mode v => if kf then eval_ok t [([], 0%Z)] stack p det k max_steps nep mode v else true
   | CLearn _ _ _ _ _ _ N T iters _ recs =>
       forallb2 (fun j r => Z.eqb (fst (fst r)) (Z.of_nat (j * N * T))) (seq 1 iters) recs
+  | CLearnHist alpha N T L iters hist recs => hist_ok alpha N T L iters hist recs
   end.
